@@ -781,6 +781,73 @@ theorem safe_resultsN (inp : Input) (o : Op) (ho : o = .parseSeparator ∨ o = .
     (h : wf o inp = true) : Safe inp (prog o inp) := by
   rcases ho with rfl | rfl | rfl | rfl <;> exact safe_freshRange _ _ (destOk_res inp)
 
+/-! ## extension round 4 -/
+
+theorem rvio_io4 {inp : Input} {a : Nat} (h : catIn inp a [.io] = true) : ¬ IsLvCr (inp.cat a) ∧ a < inp.args.length :=
+  ⟨not_lvcr_of_in h rvio_io, lt_of_catIn h⟩
+
+theorem safe_treeSwap (inp : Input) (h : wf .treeSwap inp = true) : Safe inp (prog .treeSwap inp) := by
+  have hs := shape_of_wf h
+  simp only [shapeOk, Bool.and_eq_true, beq_iff_eq] at hs
+  obtain ⟨⟨⟨⟨⟨⟨⟨_, h0⟩, h1⟩, h2⟩, h3⟩, hn0⟩, _⟩, _⟩ := hs
+  obtain ⟨c0, _⟩ := rvio_io4 h0
+  obtain ⟨c1, l1⟩ := rvio_io4 h1
+  obtain ⟨c2, l2⟩ := rvio_io4 h2
+  obtain ⟨c3, l3⟩ := rvio_io4 h3
+  refine ⟨?_, ?_⟩
+  · intro x hx
+    simp only [prog, List.mem_cons, List.not_mem_nil, or_false] at hx
+    rcases hx with rfl | rfl | rfl | rfl
+    · exact (ok_swap inp 0 0 1).2 ⟨c0, by omega, by omega⟩
+    · exact (ok_steal inp 1 _).2 ⟨c1, l1, (destOk_arg inp 3).2 ⟨c3, l3⟩⟩
+    · exact (ok_steal inp 2 _).2 ⟨c2, l2, (destOk_arg inp 1).2 ⟨c1, l1⟩⟩
+    · exact (ok_steal inp 3 _).2 ⟨c3, l3, (destOk_arg inp 2).2 ⟨c2, l2⟩⟩
+  · simp only [prog]
+    refine (clean_cons _ _).2 ⟨fun y _ b j hk _ => hk, (clean_cons _ _).2 ⟨?_, (clean_cons _ _).2 ⟨?_, clean_singleton _⟩⟩⟩
+    · intro y hy b j _ hu
+      simp only [List.mem_cons, List.not_mem_nil, or_false] at hy
+      rcases hy with rfl | rfl <;> exact hu
+    · intro y hy b j _ hu
+      simp only [List.mem_singleton] at hy
+      subst hy; exact hu
+
+theorem safe_selfOps (inp : Input) (o : Op) (ho : o = .joinSelf ∨ o = .arrJoinSelf ∨ o = .tupConcatSelf) (h : wf o inp = true) :
+    Safe inp (prog o inp) := by
+  have hs := shape_of_wf h
+  rcases ho with rfl | rfl | rfl <;> simp only [shapeOk, Bool.and_eq_true] at hs <;>
+  · have c := safe_xferAll_copy (d := .res) (lvcr_of_in hs.1.2 lvcr_lvcr) (Nat.le_refl (inp.size 0)) (destOk_res inp)
+    exact safe_append c c (cross_of_noKills (noKills_xferAll_copy _ _ _))
+
+theorem safe_optCombineSelf (inp : Input) (h : wf .optCombineSelf inp = true) : Safe inp (prog .optCombineSelf inp) := by
+  refine safe_ite (fun _ => safe_nil inp) (fun hn => ?_)
+  exact safe_pair ((ok_read inp 0 0).2 (by omega)) ((ok_derive inp 0 0 1 .res).2 ⟨by omega, destOk_res inp⟩) (fun b j hk _ => hk)
+
+theorem safe_map2 (inp : Input) (o : Op) (ho : o = .algMapList ∨ o = .algMapArr ∨ o = .algMapTup) (h : wf o inp = true) :
+    Safe inp (prog o inp) := by
+  have hs := shape_of_wf h
+  rcases ho with rfl | rfl | rfl <;> simp only [shapeOk, Bool.and_eq_true] at hs <;>
+  · exact safe_callAll hs.1.2 (Nat.le_refl _) (destOk_res inp)
+
+theorem safe_readOps (inp : Input) (o : Op) (ho : o = .treeSortPred ∨ o = .algLoopBreakTuple) (h : wf o inp = true) :
+    Safe inp (prog o inp) := by
+  rcases ho with rfl | rfl
+  · exact safe_readAll (Nat.le_refl _)
+  · exact safe_readAll (Nat.min_le_left _ _)
+
+theorem safe_recSet (inp : Input) (h : wf .recSet inp = true) : Safe inp (prog .recSet inp) := by
+  have hs := shape_of_wf h
+  simp only [shapeOk, Bool.and_eq_true, beq_iff_eq, decide_eq_true_eq] at hs
+  obtain ⟨⟨⟨⟨⟨_, h0⟩, h1⟩, hn1⟩, _⟩, hj⟩ := hs
+  obtain ⟨c0, l0⟩ := rvio_io4 h0
+  have d0 : DestOk inp (.arg 0) := (destOk_arg inp 0).2 ⟨c0, l0⟩
+  have hx : Ok inp (.xfer 1 0 (fwd (inp.isRv 1)) (.arg 0)) := by
+    cases hr : inp.isRv 1
+    · exact (ok_xfer_copy inp 1 0 _).2 ⟨lvcr_of_any h1 hr, by omega, d0⟩
+    · exact (ok_xfer_move inp 1 0 _).2 ⟨not_lvcr_of_rv hr, by omega, d0⟩
+  refine safe_pair ((ok_pop inp 0 _ .drop).2 ⟨c0, hj, destOk_drop inp⟩) hx ?_
+  intro b j hk hu
+  cases inp.isRv 1 <;> simp [fwd, Instr.kills, Instr.uses] at hk hu <;> omega
+
 /-- **every registered operation's program is safe**, for arguments of every size -/
 theorem prog_safe (o : Op) (inp : Input) (h : wf o inp = true) : Safe inp (prog o inp) := by
   cases o with
@@ -934,5 +1001,16 @@ theorem prog_safe (o : Op) (inp : Input) (h : wf o inp = true) : Safe inp (prog 
   | parseList => exact safe_resultsN inp _ (by simp) h
   | parseRepPlus => exact safe_resultsN inp _ (by simp) h
   | optsMany => exact safe_resultsN inp _ (by simp) h
+  | treeSwap => exact safe_treeSwap inp h
+  | treeSortPred => exact safe_readOps inp _ (by simp) h
+  | algLoopBreakTuple => exact safe_readOps inp _ (by simp) h
+  | joinSelf => exact safe_selfOps inp _ (by simp) h
+  | arrJoinSelf => exact safe_selfOps inp _ (by simp) h
+  | tupConcatSelf => exact safe_selfOps inp _ (by simp) h
+  | optCombineSelf => exact safe_optCombineSelf inp h
+  | algMapList => exact safe_map2 inp _ (by simp) h
+  | algMapArr => exact safe_map2 inp _ (by simp) h
+  | algMapTup => exact safe_map2 inp _ (by simp) h
+  | recSet => exact safe_recSet inp h
 
 end Fcppt.C05
